@@ -95,6 +95,7 @@ type workerResult struct {
 	summary      map[string]any
 	violations   []violationRec
 	inconclusive int
+	inconWhy     map[string]int
 	stuck        int
 	crashed      int
 	notes        []string
@@ -207,6 +208,7 @@ func driver(a []string) int {
 	var samples []any
 	var viols []violationRec
 	var notes []string
+	inconWhy := map[string]int{}
 	summaries := 0
 	for _, r := range results {
 		if r == nil {
@@ -214,6 +216,9 @@ func driver(a []string) int {
 		}
 		viols = append(viols, r.violations...)
 		inconclusive += int64(r.inconclusive)
+		for k, v := range r.inconWhy {
+			inconWhy[k] += v
+		}
 		stuck += int64(r.stuck)
 		crashed += int64(r.crashed)
 		notes = append(notes, r.notes...)
@@ -345,6 +350,9 @@ func driver(a []string) int {
 	for _, n := range notes {
 		fmt.Println("  note:", n)
 	}
+	for k, v := range inconWhy {
+		fmt.Printf("  inconclusive x%d: %s\n", v, k)
+	}
 	if exit == 3 {
 		fmt.Printf("INCONCLUSIVE property=%s %s\n", prop, strings.Join(inconReasons, "; "))
 	}
@@ -364,6 +372,7 @@ func driver(a []string) int {
 			"hook_hits":           hookHits,
 			"oracle_counters":     counters,
 			"inconclusive_cases":  inconclusive + stuck,
+			"inconclusive_why":    inconWhy,
 			"crashed_workers":     crashed,
 			"workers":             nw,
 			"known_findings_seen": knownSeen,
@@ -463,6 +472,10 @@ func runWorker(exe, tmp, prop, tier string, seed uint64, idx, nw, only, slot int
 				lastStartLine = m
 			case "inconclusive":
 				res.inconclusive++
+				if res.inconWhy == nil {
+					res.inconWhy = map[string]int{}
+				}
+				res.inconWhy[fmt.Sprint(m["name"], ": ", m["why"])]++
 			case "stuck":
 				res.stuck++
 			case "violation":
